@@ -135,6 +135,8 @@ def gen_enum(e):
             w('\t\td2 := %s(verifNondetU64())' % T)
             w('\t\tverifAssert(d2.UnmarshalText(txt) == nil && d2 == e, "C19/all-flags-round-trip")')
             w('\t}')
+        w('\tverifAssert(d.UnmarshalText([]byte("12x")) != nil, "C19/junk-number-rejected")')
+        w('\tverifAssert(d.UnmarshalText([]byte("%s | 2x")) != nil, "C19/junk-number-in-combination-rejected")' % f0)
         w('\tverifAssert(d.UnmarshalText([]byte(" | ")) != nil, "C19/empty-segments-rejected")')
         w('\tverifAssert(d.UnmarshalText([]byte("%s | ")) != nil, "C19/trailing-empty-segment-rejected")' % f0)
         w('\tverifAssert(d.UnmarshalText([]byte(" | %s")) != nil, "C19/leading-empty-segment-rejected")' % f0)
